@@ -38,7 +38,7 @@ EXPLANATION = (
 )
 NONTRIVIAL_RULE = "had at least one timer armed and one stimulus or expiry processed"
 BOUNDS = {
-    "after_schedule": "machine TM; delays d1,d2 in [0,40] ms, slow action a in [0,40] ms, stimuli at t1<=t2 in [0,60] ms of kind in {LEAVE,RE,NOP,BACK,STOP} (first kind fixed per item; async: both kinds fixed per item), guard of the second timer symbolic; observation window 150 ms; both engines",
+    "after_schedule": "machine TM; delays d1,d2 in [0,40] ms, slow action a in [0,40] ms, stimuli at t1<=t2 in [0,60] ms of kind in {LEAVE,RE,NOP,BACK,STOP,BAD (an aborted, rolled-back transition between children of S), NRE / NLB (batches: slow action, then leave + re-enter)} (first kind fixed per item; async: both kinds fixed per item), guard of the second timer symbolic; observation window 260 ms; both engines",
 }
 ASSUMPTIONS = [
     "virtual time: VLoop (async) jumps to the next deadline when nothing is runnable; vthreading (sync) runs a timer thread's body atomically at its deadline, between harness calls or inside the slow action",
@@ -47,9 +47,13 @@ ASSUMPTIONS = [
 ]
 WALL_BUDGET = {"quick": 900.0, "thorough": 3300.0}
 
-KINDS = ["LEAVE", "RE", "NOP", "BACK", "STOP"]
+KINDS = ["LEAVE", "RE", "NOP", "BACK", "STOP", "BAD", "NRE", "NLB"]
+# NRE / NLB: one batch send_events([...]) - a slow action first, then events that leave and re-enter S: an expiry notification
+# produced during the slow action is queued BEHIND them and is stale when it is finally dequeued
+BATCH = {"NRE": ["NOP", "RE"], "NLB": ["NOP", "LEAVE", "BACK"]}
 CTL: Dict[str, Any] = {}
 _M: Dict[str, Any] = {}
+HORIZON = 260     # ms: two stimuli (<= 60 ms) + up to three slow actions (<= 40 ms each) + the longest delay (40 ms), with room
 
 
 def _note(m: str) -> None:
@@ -100,6 +104,10 @@ def tm_config() -> Dict[str, Any]:
                     "RE": {"target": "S", "reenter": True},
                     "NOP": {"actions": ["slow"]},
                 },
+                # BAD: a transition between children of S that names an action nobody implements - it aborts and is rolled
+                # back; S itself is never left, so its timers must not notice
+                "initial": "s1",
+                "states": {"s1": {"on": {"BAD": {"target": "s2", "actions": ["zz_missing"]}}}, "s2": {}},
             },
             "O": {"entry": ["O.en"], "on": {"BACK": "S", "RE": "S"}},
             "T": {"entry": ["T.en"], "on": {"BACK": "S"}},
@@ -135,6 +143,7 @@ def set_params(p: Dict[str, Any]) -> None:
 
 def _run_sync(stim: List[Tuple[Any, str]], horizon: Any) -> Any:
     from xstate_statemachine import SyncInterpreter
+    from xstate_statemachine.exceptions import ImplementationMissingError
 
     S = vthread.SCHED
     S.reset(0.0)
@@ -150,7 +159,14 @@ def _run_sync(stim: List[Tuple[Any, str]], horizon: Any) -> Any:
             _log("stop", "stop")
         else:
             _log("send", kind)
-            it.send(kind)
+            try:
+                if kind in BATCH:
+                    it.send_events(list(BATCH[kind]))
+                else:
+                    it.send(kind)
+            except ImplementationMissingError:
+                if kind != "BAD":
+                    raise
     CTL["census"].append((S.now, len(S.live()), _armed(it)))
     S.advance_to(horizon / 1000.0)
     CTL["census"].append((S.now, len(S.live()), _armed(it)))
@@ -182,7 +198,8 @@ def _run_async(stim: List[Tuple[Any, str]], horizon: Any) -> Any:
                 _log("stop", "stop")
             else:
                 _log("send", kind)
-                await it.send(kind)
+                for one in BATCH.get(kind, [kind]):
+                    await it.send(one)
         if box["stopped_at"] is None:
             await it._event_queue.join()
         CTL["census"].append((lp.time(), _live_timer_tasks(lp), _armed(it)))
@@ -280,6 +297,8 @@ def _check(log: List[Any], d1: Any, d2: Any, a: Any, gU: Any, stopped_at: Any, p
             still_active = tx is None or tx >= due - 1e-9
             if stopped_at is not None and stopped_at <= due:
                 continue
+            if due >= HORIZON / 1000.0 - 1e-9:
+                continue        # beyond the observation window
             busy = any(b <= due <= e_ for b, e_ in slow_spans)
             if still_active and not busy:
                 if not (i in fired_in and nm in fired_in[i] and tx is not None and abs(tx - due) < 1e-9):
@@ -315,9 +334,9 @@ def after_schedule(d1: int, d2: int, a: int, t1: int, t2: int, k2: int, gU: bool
     if kind1 == "STOP":
         stim = [(t1, "STOP")]
     if eng == 0:
-        it, stopped_at, pend = _run_sync(stim, 150)
+        it, stopped_at, pend = _run_sync(stim, HORIZON)
     else:
-        it, stopped_at, pend = _run_async(stim, 150)
+        it, stopped_at, pend = _run_async(stim, HORIZON)
     why = _check(CTL["log"], d1, d2, a, gU, stopped_at, pend)
     if why:
         _note(f"{'sync' if eng == 0 else 'async'} d1={d1} d2={d2} a={a} gU={bool(gU)} stimuli={stim}: {why}; log="
